@@ -164,6 +164,49 @@ Qed.
 Lemma demand_okb_iff t : demand_okb t = true <-> demand_ok t.
 Proof. unfold demand_okb, demand_ok. rewrite demand_scan_iff. simpl. reflexivity. Qed.
 
+(* ---------- no read-ahead: whatever is pulled is looked at before anything more is pulled ---------- *)
+(* For a variable over objects that the query uses only through attributes: every element pulled out of its generator
+   has one of its attributes read before the next element is pulled, before the generator is finished and before the
+   log ends.  (An evaluator that pre-fetches, or drains a partly cached domain before handing out its first value, fails.) *)
+Definition obj_of (D : domains) (x : var) (i : nat) : option Z :=
+  match nth_error (D x) i with Some (VO o) => Some o | _ => None end.
+Fixpoint examined_scan (D : domains) (x : var) (pend : option Z) (t : list event) : bool :=
+  match t with
+  | [] => match pend with None => true | Some _ => false end
+  | Pull y i :: t' =>
+      if Nat.eqb x y then match pend with None => examined_scan D x (obj_of D x i) t' | Some _ => false end
+      else examined_scan D x pend t'
+  | End y :: t' =>
+      if Nat.eqb x y then match pend with None => examined_scan D x None t' | Some _ => false end
+      else examined_scan D x pend t'
+  | Get o _ :: t' =>
+      match pend with
+      | Some p => if Z.eqb o p then examined_scan D x None t' else examined_scan D x pend t'
+      | None => examined_scan D x None t'
+      end
+  | Yield _ :: t' => examined_scan D x pend t'
+  end.
+(* x occurs in the condition, never bare (always below an attribute), and ranges over objects *)
+Definition bare (x : var) (e : opnd) : bool := match e with OVar y => Nat.eqb x y | _ => false end.
+Fixpoint no_bare (x : var) (c : cond) : bool :=
+  match c with
+  | CCmp _ l r => negb (bare x l) && negb (bare x r)
+  | CAnd l r | CElseIf l r | CUnion l r => no_bare x l && no_bare x r
+  | CNot c => no_bare x c
+  | CExists (OVar _) c => no_bare x c
+  | CExists e c => negb (bare x e) && no_bare x c
+  | CForAll _ c => no_bare x c
+  end.
+Definition attr_only (D : domains) (q : query) (x : var) : bool :=
+  match q_cond q with
+  | Some c => nmem x (cond_vars c) && no_bare x c && forallb (fun v => match v with VO _ => true | _ => false end) (D x)
+  | None => false
+  end.
+Definition examined_okb (D : domains) (qs : list query) (xs : list var) (t : list event) : bool :=
+  forallb (fun x => negb (forallb (fun q => attr_only D q x || negb (nmem x (query_vars q))) qs
+                           && existsb (fun q => attr_only D q x) qs)
+                    || examined_scan D x None t) xs.
+
 (* ---------- the fragment F10 (decidable, syntactic) ---------- *)
 Definition inter (l m : list var) : list var := filter (fun x => nmem x m) l.
 (* variables certainly bound in every result of the given truth (true: the condition holds) *)
@@ -203,16 +246,24 @@ Definition show_trace (t : list event) : sx := SL (map show_event t).
 (* the Spec applied to observed logs: [full] = log of pulling everything, [ks] = logs of pulling n = 0, 1, 2, ... results.
    0 = meets the Spec; otherwise a sum of: 1 rows of the n-stopped run are not the first n rows of the full run /
    its log is not a prefix of the full log; 2 some domain is not consumed as the prefix 0,1,2,...; 4 a domain was
-   exhausted before any earlier-used variable moved on (more was pulled than the reference enumerator needs) *)
+   exhausted before any earlier-used variable moved on (more was pulled than the reference enumerator needs);
+   8 an element was pulled and not looked at before more was pulled / the log ended (read-ahead) *)
 Definition b2z (b : bool) (w : Z) : Z := if b then 0%Z else w.
 Definition case_in_F10 (c : ecase) : sx := SZ (if f10 (e_query c) then 1 else 0)%Z.
-Definition spec_code (check_demand : bool) (full : list event) (ks : list (list event)) : Z :=
+Definition spec_code (check_demand : bool) (exam : list event -> bool) (full : list event) (ks : list (list event)) : Z :=
   let nk := combine (seq 0 (length ks)) ks in
   let all := full :: ks in
   (b2z (forallb (fun p => rows_eqb (rows_of (snd p)) (firstn (fst p) (rows_of full)) && prefixb (snd p) full) nk) 1
    + b2z (forallb (fun t => forallb (fun x => pulls_in_orderb x t) (vars_of full)) all) 2
-   + b2z (negb check_demand || forallb demand_okb all) 4)%Z.
+   + b2z (negb check_demand || forallb demand_okb all) 4
+   + b2z (forallb exam all) 8)%Z.
 (* the demand bound is relative to a single-pass nested-loop enumerator: it is applied to union-free conditions only *)
 Definition union_free_o (c : option cond) : bool := match c with Some c => union_free c | None => true end.
 Definition case_spec_code (c : ecase) (full : list event) (ks : list (list event)) : sx :=
-  SZ (spec_code (union_free_o (q_cond (e_query c))) full ks).
+  SZ (spec_code (union_free_o (q_cond (e_query c)))
+                (examined_okb (mk_domains (e_doms c)) [e_query c] (map fst (e_doms c))) full ks).
+(* a sequence of evaluations over the same variables: [base] = log after the first step alone, [t] = log after both *)
+Definition seq_spec_code (c : ecase) (q2 : query) (base t : list event) : sx :=
+  SZ (b2z (prefixb base t) 1
+      + b2z (forallb (fun x => pulls_in_orderb x t) (vars_of t)) 2
+      + b2z (examined_okb (mk_domains (e_doms c)) [e_query c; q2] (map fst (e_doms c)) t) 8)%Z.
